@@ -167,7 +167,8 @@ with pu_n (vis : list vinfo) (outer : list (list N)) (cur : list N) (n : nproto)
 with pu_as (nsc : list (list N)) (al : aprotos) {struct al} : option (list atree) :=
   match al with
   | ANil => Some []
-  | ACons a r => obind (pu_a nsc a) (fun x => obind (pu_as nsc r) (fun l => Some (x :: l)))
+  | ACons a r => if existsb (N.eqb (aproto_name a)) (aproto_names r) then pu_as nsc r   (* only the last of a name *)
+                 else obind (pu_a nsc a) (fun x => obind (pu_as nsc r) (fun l => Some (x :: l)))
   end
 with pu_a (nsc : list (list N)) (a : aproto) {struct a} : option atree :=
   match a with
